@@ -121,8 +121,11 @@ func (i *Interpreter) eval(expr ast.Expr, env *environment.Environment, isRepl b
 	case *ast.ObjectLiteral:
 		properties := make(map[string]interface{})
 
-		for key, valueExpr := range e.Properties {
-			value, signal := i.eval(valueExpr, env, isRepl)
+		// Evaluate the initialisers in source order (ranging over the map would
+		// run them in a different order on every execution)
+		for _, name := range e.Keys {
+			key := name.Lexeme
+			value, signal := i.eval(e.Properties[key], env, isRepl)
 			if signal.Type != ControlFlowNone {
 				return nil, signal
 			}
